@@ -1365,6 +1365,11 @@ class Interp:
                     g[p_key(a.lin)] = g.get(p_key(a.lin), IntSet.all()).meet(outr)
                 vs["Err"] = ({"0": ATop("core::num::TryFromIntError")}, (g,))
             return AEnum(dest_ty or "core::result::Result<%s, core::num::TryFromIntError>" % tgt, vs)
+        m = re.search(r"impl core::convert::From<(\w+)> for (\w+)>::from$", name)
+        if m and m.group(1) in INT_RANGE and m.group(2) in INT_RANGE and isinstance(args[0], AInt):
+            # lossless integer widening
+            a = args[0]
+            return AInt(self.cur(st, a), a.lin, m.group(2))
         if name == "core::num::nonzero::<impl core::convert::From<core::num::NonZero<T>> for T>::from":
             ty = dest_ty if dest_ty in INT_RANGE else "u64"
             lo, hi = INT_RANGE[ty]
